@@ -1,14 +1,14 @@
 SPECIFICATION Spec
 CONSTANTS
-  Addr <- Addr2
-  Gaps <- GapsFixed2
+  Addr <- Addr1
+  Gaps <- GapsJitter1
   T = 10
   D = 1
-  MaxEvents = 3
-  MaxFails = 1
-  Backoff = TRUE
+  MaxEvents = 2
+  MaxFails = 3
+  Backoff = FALSE
   Closed = TRUE
-  ObserveCb = FALSE
+  ObserveCb = TRUE
   TrackQuiet = FALSE
   UnitMs = 1000
 INVARIANTS TypeOK Converged LearnsLive ForgetsDead SelfListed PeriodRestored NoDuplicateAddr ChannelSane
